@@ -20,9 +20,10 @@ RULE = ("(i) all 64 edge subsets of the 4-node topological order x 24 textual or
         "result names, side-effect-only sinks returning None, forward references), several programs per process; (iii) random EEMS models; "
         "each followed by a random history of 0-8 run()/result/metadata/to_string/validate_params steps; distinct by (n, edge count, "
         "styles used, has-sink, has-colliding-strings, history step kinds)")
-REQUIRED_COUNTERS = ["programs_run", "execute_events", "read_events", "history_steps", "reference_values_compared", "flatten_contract_evaluations", "retry_programs", "grown_programs", "api_built_programs", "inside_execute_records_compared"]
+REQUIRED_COUNTERS = ["programs_run", "execute_events", "read_events", "history_steps", "reference_values_compared", "flatten_contract_evaluations", "retry_programs", "grown_programs", "api_built_programs", "inside_execute_records_compared", "large_result_programs", "deep_chain_programs"]
 EXHAUSTIVE_NOTE = "thorough tier enumerates all 64 x 24 x 3 four-command programs"
-ASSUMPTIONS = ["programs that fail to run are judged elsewhere (C12-C14) unless the program is valid by construction",
+ASSUMPTIONS = ["a chain of %d direct references must run under the default recursion limit (the pinned tree manages about 330; deeper chains are left to C13: whatever happens there must be an MPilot error)" % 210,
+               "programs that fail to run are judged elsewhere (C12-C14) unless the program is valid by construction",
                "the order in which independent commands run is not judged", "equality, not identity, of fed values is demanded"]
 
 
@@ -71,6 +72,8 @@ def gen_dag(rng, n=None, flaky=False):
         name = "N%d" % i
         if i == 0 or rng.random() < 0.2:
             nodes.append({"name": name, "kind": "Src", "V": rng.randint(0, 10 ** 6)})
+            if rng.random() < 0.15:
+                nodes[-1]["Q"] = rng.choice(["nan", "inf", "-inf", "1e999", "2.5", "0"])
             continue
         prev = ["N%d" % j for j in range(i)]
         nums = [nd["name"] for nd in nodes if nd["kind"] == "Num"]
@@ -118,6 +121,11 @@ def gen_dag(rng, n=None, flaky=False):
             node["Tag"] = rng.choice(prev + [name, "N%d" % (n - 1), "free text"])
         if rng.random() < 0.25:
             node["Labels"] = [rng.choice(["Low", "High", "N%d" % rng.randrange(n), "N%d" % (n - 1)]) for _ in range(rng.randint(1, 3))]
+        if rng.random() < 0.12:
+            # numbers that do not enter the result, written as text the number parameter converts (also not-a-number / infinite)
+            node["Q"] = rng.choice(["nan", "inf", "-inf", "1e999", "2.5", "0"])
+        if rng.random() < 0.08:
+            node["QL"] = [rng.choice(["nan", "1", "0.5", "inf"]) for _ in range(rng.randint(1, 3))]
         nodes.append(node)
     return nodes
 
@@ -154,7 +162,7 @@ def to_text(nodes, order):
     for i in order:
         nd = nodes[i]
         if nd["kind"] == "Src":
-            lines.append("%s = Src(V = %d)" % (nd["name"], nd["V"]))
+            lines.append("%s = Src(V = %d%s)" % (nd["name"], nd["V"], ", Q = %s" % nd["Q"] if "Q" in nd else ""))
         elif nd["kind"] == "Sink":
             lines.append("%s = Sink(L = %s)" % (nd["name"], _fmt(nd["L"])))
         elif nd["kind"] == "Flaky":
@@ -172,6 +180,10 @@ def to_text(nodes, order):
                 args.append('Tag = "%s"' % nd["Tag"])
             if "Labels" in nd:
                 args.append("Labels = [%s]" % ", ".join('"%s"' % x if " " in x else x for x in nd["Labels"]))
+            if "Q" in nd:
+                args.append("Q = %s" % nd["Q"])
+            if "QL" in nd:
+                args.append("QL = [%s]" % ", ".join(nd["QL"]))
             lines.append("%s = Op(%s)" % (nd["name"], ", ".join(args)))
     return "\n".join(lines)
 
@@ -259,6 +271,18 @@ def cases(ctx):
         # the same kind of program built through add_command, references given as result names or as Command objects
         nodes = gen_dag(rng, n=rng.randint(2, 10))
         yield {"kind": "apidag", "nodes": nodes, "history": _gen_history(rng, len(nodes)), "rseed": rng.randrange(10 ** 9)}
+    # results of tens of megabytes (a raster of more than a million float64 cells) as intermediate results
+    for i in range(ctx.n(2, 12)):
+        k = rng.randint(3, 6)
+        nodes = [{"name": "B0", "Cells": rng.choice([2 ** 20 + 1, 1200000, 2 ** 21])}]
+        for j in range(1, k):
+            nodes.append({"name": "B%d" % j, "Cells": nodes[0]["Cells"], "L": sorted(set(rng.choice(["B%d" % x for x in range(j)]) for _ in range(rng.randint(1, 2))))})
+        order = list(range(k))
+        rng.shuffle(order)
+        yield {"kind": "bigdag", "nodes": nodes, "order": order, "history": [[rng.choice(["read", "read", "run"]), rng.randrange(k)] for _ in range(rng.randint(2, 5))]}
+    # a long chain of direct references (each command reads its predecessor), in a process of its own without any recorder
+    for i in range(ctx.n(1, 4)):
+        yield {"kind": "chain", "depth": DEEP_CHAIN, "rseed": rng.randrange(10 ** 9), "style": "direct"}
     for i in range(ctx.n(250, 12000)):
         m = models.gen_model(rng, n_ops=rng.randint(1, 10), sinks=True, metadata=rng.random() < 0.3, libs="nc" if i % 3 == 0 else "csv")
         m = models.permuted(m, rng)
@@ -364,6 +388,10 @@ def run_case(ctx, case):
         return run_retry(ctx, case)
     if case["kind"] == "grow":
         return run_grow(ctx, case)
+    if case["kind"] == "bigdag":
+        return run_bigdag(ctx, case)
+    if case["kind"] == "chain":
+        return run_chain(ctx, case)
     nodes = case["nodes"]
     names = [nd["name"] for nd in nodes]
     import vprobe
@@ -451,6 +479,101 @@ def run_case(ctx, case):
     ctx.feature((len(nodes), sum(1 for e in log if e["k"] == "read_done"), styles, any(nd["kind"] == "Sink" for nd in nodes), tuple(sorted(set(kinds)))))
     if len(ctx.samples) < 4 and len(nodes) >= 4 and case["history"]:
         ctx.sample({"text": text, "events": len(log), "executes": [e["name"] for e in log if e["k"] == "exec_enter"], "history": case["history"]})
+
+
+DEEP_CHAIN = 210     # the pinned tree runs chains of about 330 direct references under the default recursion limit
+
+
+def run_bigdag(ctx, case):
+    from mpilot.program import Program
+    import vprobe
+    nodes = case["nodes"]
+    names = [nd["name"] for nd in nodes]
+    text = "\n".join("%s = Big(Cells = %d%s)" % (nodes[i]["name"], nodes[i]["Cells"], ", L = [%s]" % ", ".join(nodes[i]["L"]) if nodes[i].get("L") else "") for i in case["order"])
+    detail = {"text": text}
+    ctx.count("programs_run")
+    ctx.count("large_result_programs")
+    prog = Program.from_source(text, libraries=("vprobe",))
+    del vprobe.EXEC_LOG[:]
+    log = trace.start()
+    trace.attach(prog)
+    try:
+        prog.run()
+    except Exception as e:
+        trace.stop()
+        ctx.fail("dag:valid-program-does-not-run:%s" % type(e).__name__, dict(detail, error=str(e)[:300]))
+        return
+    finally:
+        trace.stop()
+    returned = check_log(ctx, log, set(names), "dag", detail)
+    if returned is None:
+        return
+    kinds = run_history(ctx, prog, names, returned, case["history"], "dag:large-results", detail)
+    if sorted(vprobe.EXEC_LOG) != sorted(names):
+        from collections import Counter
+        cnt = Counter(vprobe.EXEC_LOG)
+        ctx.fail("dag:large-results:execute-ran-again-according-to-the-commands-themselves", dict(detail, executions={n: cnt.get(n, 0) for n in names if cnt.get(n, 0) != 1}))
+    ctx.feature(("bigdag", len(nodes), tuple(sorted(set(kinds)))))
+
+
+CHAIN_SCRIPT = r"""
+import sys, json, random
+sys.path[:0] = %(path)r
+from mpilot.program import Program
+from mpilot import params
+from mpilot.commands import Command
+LOG = []
+class Lnk(Command):
+    inputs = {"A": params.ResultParameter(required=False)}
+    output = params.DataParameter()
+    def execute(self, **kwargs):
+        LOG.append(self.result_name)
+        a = kwargs.get("A")
+        return 1 if a is None else a.result + 1
+n, seed = %(n)d, %(seed)d
+lines = ["N0 = Lnk()"] + ["N%%d = Lnk(A = N%%d)" %% (i, i - 1) for i in range(1, n)]
+random.Random(seed).shuffle(lines)
+out = {}
+try:
+    p = Program.from_source("\n".join(lines), libraries=("__main__",))
+    p.run()
+    out["outcome"] = "ok" if p.commands["N%%d" %% (n - 1)].result == n else "wrong-value"
+    out["unfinished"] = [k for k, c in p.commands.items() if not c.is_finished][:5]
+except BaseException as e:
+    out["outcome"] = type(e).__name__ + ("/" + type(getattr(e, "exc", None)).__name__ if hasattr(e, "exc") else "")
+from collections import Counter
+cnt = Counter(LOG)
+out["not_once"] = {k: cnt.get("N%%d" %% k, 0) for k in range(n) if cnt.get("N%%d" %% k, 0) != 1}
+print("CHAINRESULT " + json.dumps(out))
+"""
+
+
+def run_chain(ctx, case):
+    import json
+    import os
+    import subprocess
+    import sys
+    script = CHAIN_SCRIPT % {"path": [p for p in sys.path if p], "n": case["depth"], "seed": case["rseed"]}
+    try:
+        r = subprocess.run([sys.executable, "-c", script], capture_output=True, text=True, timeout=300, env=dict(os.environ))
+    except subprocess.TimeoutExpired:
+        ctx.note_inconclusive("deep-chain child timed out")
+        return
+    res = None
+    for ln in r.stdout.splitlines():
+        if ln.startswith("CHAINRESULT "):
+            res = json.loads(ln[len("CHAINRESULT "):])
+    if res is None:
+        ctx.note_inconclusive("deep-chain child failed: %s" % (r.stderr or r.stdout)[-300:])
+        return
+    ctx.count("programs_run")
+    ctx.count("deep_chain_programs")
+    ctx.count("execute_events", case["depth"])
+    ctx.feature(("chain", case["depth"], case["style"]))
+    if res["outcome"] != "ok":
+        ctx.fail("chain:%d-commands-deep-does-not-run:%s" % (case["depth"], res["outcome"]), {"depth": case["depth"], "style": case["style"], "executed_other_than_once": len(res["not_once"])})
+    elif res["not_once"] or res.get("unfinished"):
+        ctx.fail("chain:commands-not-executed-exactly-once", {"depth": case["depth"], "examples": dict(list(res["not_once"].items())[:5]), "unfinished": res.get("unfinished")})
 
 
 def run_eems(ctx, case):
